@@ -203,7 +203,7 @@ var recPhases = ev.New("C20", "shutdown-phases",
 	Require("phase/queued", "phase/cooling-down", "phase/idle-after-save")
 
 func TestShutdownPhases(t *testing.T) {
-	dir, err := os.MkdirTemp(workDir(), "c20p-")
+	dir, err := os.MkdirTemp(workDir(), "verif-c20-p-")
 	if err != nil {
 		t.Fatal(err)
 	}
@@ -213,8 +213,8 @@ func TestShutdownPhases(t *testing.T) {
 		res := runPhasePlan(t, p, dir)
 		phase, unsaved := phaseAtCancel(p)
 		if res.violation != "" {
-			if strings.Contains(res.violation, "SIG=C20/"+sigNotSaved) && ev.IsKnown("C20", sigNotSaved) {
-				recPhases.KnownHit(sigNotSaved)
+			if strings.Contains(res.violation, "SIG=C20/"+sigNotSaved) && isKnown(sigNotSaved) {
+				recPhases.KnownHit(listedSig(sigNotSaved))
 			} else {
 				rt.Fatalf("%s\n  phase at cancel (model): %s\n  plan: %s", res.violation, phase, p)
 			}
@@ -235,7 +235,7 @@ func TestShutdownPhases(t *testing.T) {
 
 // Frozen minimal history of the second C20 defect: one acknowledged change, shutdown at once.
 func TestRegressionAckThenStop(t *testing.T) {
-	dir, err := os.MkdirTemp(workDir(), "c20g-")
+	dir, err := os.MkdirTemp(workDir(), "verif-c20-g-")
 	if err != nil {
 		t.Fatal(err)
 	}
@@ -245,8 +245,8 @@ func TestRegressionAckThenStop(t *testing.T) {
 			Steps: []phaseStep{{Op: opSpec{"add", "alice", 1}}}, Reps: 60}
 		res := runPhasePlan(t, p, dir)
 		if res.violation != "" {
-			if strings.Contains(res.violation, sigNotSaved) && ev.IsKnown("C20", sigNotSaved) {
-				recPhases.KnownHit(sigNotSaved)
+			if strings.Contains(res.violation, sigNotSaved) && isKnown(sigNotSaved) {
+				recPhases.KnownHit(listedSig(sigNotSaved))
 				continue
 			}
 			t.Errorf("%s\n  plan: %s", res.violation, p)
